@@ -189,7 +189,7 @@ class ApiAdapter:
             return R('int', [c.cull(**rt)])
         if name == 'push':
             pv = self._store_args(a)
-            prefix = None if not a['p'] else ''.join(chr(x) for x in a['p'])
+            prefix = None if not a['p'] else '' if a['p'] == [-1] else ''.join(chr(x) for x in a['p'])
             side = 'back' if a['back'] else 'front'
             if form == 2 and type(pv) is bytes:
                 r = c.push(io.BytesIO(pv), prefix=prefix, side=side, expire=ttl_py(a['ttl']),
@@ -198,7 +198,7 @@ class ApiAdapter:
                 r = c.push(pv, prefix=prefix, side=side, expire=ttl_py(a['ttl']), tag=tag_py(a['tag']), **rt)
             return R('key', km.to_model(r))
         if name in ('pull', 'peek'):
-            prefix = None if not a['p'] else ''.join(chr(x) for x in a['p'])
+            prefix = None if not a['p'] else '' if a['p'] == [-1] else ''.join(chr(x) for x in a['p'])
             side = 'back' if a['back'] else 'front'
             fx, ft = bool(a['fx']), bool(a['ft'])
             r = getattr(c, name)(prefix=prefix, default=(SENT, SENT), side=side, expire_time=fx, tag=ft, **rt)
